@@ -80,6 +80,9 @@ def compare_program(p, r):
         return None
     if norm_out(sb['stdout'], True) != norm_out(pl['stdout'], False):
         return ('stdout', 'printed text differs: sandbox %r vs plain interpreter %r' % (norm_out(sb['stdout'], True)[-120:], norm_out(pl['stdout'], False)[-120:]))
+    if sb.get('lines') != sb.get('lines_expected'):
+        diff = [(a, b) for a, b in zip(sb.get('lines', []), sb.get('lines_expected', [])) if a != b][:3]
+        return ('lines', 'the list of printed lines differs from the printed text split into lines: %s' % (diff or (sb.get('lines'), sb.get('lines_expected'))))
     so, po = sb['outcome'], pl['outcome']
     if so['kind'] != po['kind'] or so.get('cls') != po.get('cls'):
         return ('outcome', 'outcome differs: sandbox %s vs plain %s' % (so, po))
@@ -149,6 +152,9 @@ def correspondence(ctx):
         # carriage returns are characters like any other
         {'src': 'print("progress 1", end="\\r")\nprint("progress 2", end="\\r\\n")\ns = "a\\rb"\nprint(s, len(s))\n', 'inputs': [], 'calls': []},
         {'src': 'def bar(n):\n    print("#" * n, end="\\r")\n    return "x\\r\\ny"\n', 'inputs': [], 'calls': [['bar', ['3']], ['bar', ['1']]]},
+        # leading blank space belongs to the line
+        {'src': 'for i in range(3):\n    print(" " * (3 - i) + "*" * (2 * i + 1))\nprint("\\titem\\t3")\ndef receipt():\n    print("  total:  5")\n',
+         'inputs': [], 'calls': [['receipt', []]]},
     ]
     helper = {'helper.py': 'x = 5\ndef double(n):\n    return 2 * n\nprint("helper loaded")\n'}
     multi = [
